@@ -1225,6 +1225,52 @@ pub fn generate(kind: &str, seed: u64, count: usize, out: &str) {
           steps.push(json!({"op": "law", "law": "same", "a": 0, "b": 1}));
         }
       }
+      "identity" if g.rng.gen_bool(0.25) => {
+        // equal call sequences, different observer histories: r0 is observed
+        // between the mutating calls, r1 is not
+        let inner = steps[0]["tree"].clone();
+        let inner_text = match std::panic::catch_unwind(|| Gen::text_of(&inner)) {
+          Ok(t) => t,
+          Err(_) => continue,
+        };
+        let t = json!({"k": "replace", "inner": inner, "repls": []});
+        let mut v = vec![json!({"op": "build", "dst": 0, "tree": t.clone()}),
+                         json!({"op": "build", "dst": 1, "tree": t})];
+        let n = g.rng.gen_range(2..=6);
+        let mut calls = Vec::new();
+        for _ in 0..n {
+          let mut m = g.replacement(&inner_text);
+          m["op"] = json!("replace");
+          calls.push(m);
+        }
+        for m in &calls {
+          let mut m0 = m.clone();
+          m0["r"] = json!(0);
+          v.push(m0);
+          match g.rng.gen_range(0..8) {
+            0 => v.push(obs("source", 0)),
+            1 => v.push(json!({"op": "hash", "r": 0, "h": "twox"})),
+            2 => v.push(obs("rope", 0)),
+            3 => v.push(map(0, true)),
+            4 => v.push(obs("size", 0)),
+            _ => {}
+          }
+        }
+        for m in &calls {
+          let mut m1 = m.clone();
+          m1["r"] = json!(1);
+          v.push(m1);
+        }
+        let eq = |a: u64, b: u64| json!({"op": "eq", "a": a, "b": b});
+        v.push(eq(0, 1));
+        v.push(eq(1, 0));
+        for r in 0..2u64 {
+          v.extend(vec![obs("source", r), obs("buffer", r), map(r, true), map(r, false),
+                        json!({"op": "hash", "r": r, "h": "twox"})]);
+        }
+        v.push(eq(0, 1));
+        steps = v;
+      }
       "identity" | "edit_pairs" => {
         let t = steps[0]["tree"].clone();
         let mut e = t.clone();
